@@ -44,4 +44,15 @@ CHECKS = {
              "spec_details; composition theorem closed, refinement lemmas in progress.",
         note="Trusted: as C01.",
         technique="differential correspondence against an executable Coq model and Coq ledger specification; refinement proof in progress"),
+    "C18": dict(
+        text="Model Queue/Queue.v: labelled transition system transcribed from chain/queue.go's worker (select A over chanIn/quit with an inner "
+             "non-blocking select chanOut/quit/default->PushBack; select B over chanIn->PushBack / chanOut<-Front;Remove / quit), parametric in both "
+             "channel capacities (the code is cin=0, cout=bufferSize). Proved for every capacity and every schedule, unbounded: conservation and order "
+             "(rcvd ++ chanOut ++ overflow ++ held ++ chanIn = sent), received is a prefix and exact when drained, drain always possible, producer never "
+             "blocked (at most 2 consumer-free worker steps re-enable Send; any burst accepted with zero consumer steps), after Stop the quit step is enabled "
+             "at every control point and worker-only runs are bounded, and soundness of the correspondence checker. Correspondence: the real "
+             "chain.ConcurrentQueue with bufferSize in {0,1,2,5,20}, scripted and concurrent producer/consumer plans, send timeouts, goroutine-count probe after Stop.",
+        note="PARTIAL: liveness under Go's scheduler is not proved ('Stop terminates' = quit always enabled + bounded worker-only runs; 'never blocked' = bounded "
+             "consumer-free worker steps re-enable send); both are exercised by timeouts/goroutine probes. Go memory model taken as atomic interleaving. "
+             "Only ConcurrentQueue (bitcoind backend) is exercised; btcd.go/neutrino.go use private inline queue loops of the cin=0,cout=0 shape. No axioms."),
 }
